@@ -53,7 +53,7 @@ type item struct {
 	live   bool // the counter contract exists when this transaction runs
 }
 
-var plainOK = map[string]bool{"xfer": true, "create": true, "createfail": true, "call": true, "revert": true, "oog": true, "loop": true, "pre": true,
+var plainOK = map[string]bool{"xfer": true, "create": true, "createfail": true, "createcalls": true, "valuecalls": true, "call": true, "revert": true, "oog": true, "loop": true, "pre": true,
 	"admok": true, "admshort": true, "admcall": true, "kv": true, "kvbig": true}
 
 type run struct {
